@@ -535,18 +535,21 @@ def _work(args):
             except Exception:
                 continue
             b.case(('frame', family, values))
-            col = audit_calc(b, family, values, df, w, props)
-            if col is None:
-                continue
-            if 'C02' in props:
-                check_verdicts(b, family, values, df, col, w,
-                               eps_list=opts.get('eps', (0, 0.25, 0.5)))
-            if 'C01' in props or 'C07' in props:
-                check_discovery(b, family, values, df, col, w, tmpdir, props)
-            if 'C06' in props and col.ttype in ('int', 'real', 'bool', 'string', 'date'):
-                import random as _r
-                check_detection(b, family, values, df, col, w, tmpdir,
-                                _r.Random(repr((family, values, opts.get('seed', 0)))))
+
+            def one_frame():
+                col = audit_calc(b, family, values, df, w, props)
+                if col is None:
+                    return
+                if 'C02' in props:
+                    check_verdicts(b, family, values, df, col, w,
+                                   eps_list=opts.get('eps', (0, 0.25, 0.5)))
+                if 'C01' in props or 'C07' in props:
+                    check_discovery(b, family, values, df, col, w, tmpdir, props)
+                if 'C06' in props and col.ttype in ('int', 'real', 'bool', 'string', 'date'):
+                    import random as _r
+                    check_detection(b, family, values, df, col, w, tmpdir,
+                                    _r.Random(repr((family, values, opts.get('seed', 0)))))
+            b.case_guard(props[0], w, one_frame)
     finally:
         shutil.rmtree(tmpdir, ignore_errors=True)
     return (b.evaluations, b.distinct, b.samples, b.failures, b.contracts)
@@ -587,7 +590,48 @@ def run(props, tier, seed, families=None):
     total.samples = total.samples[:8]
     if 'C02' in props:
         check_totals(total, seed)
+    if 'C06' in props:
+        check_multi_field_detection(total)
     return total
+
+
+def check_multi_field_detection(b):
+    """C06 on frames with several constrained fields, the failing one first / in the middle / last / absent:
+    detection is produced exactly when something fails, and holds exactly the failing records."""
+    from tdda.constraints import detect_df, verify_df
+    cols = {'amount': [1, 50, 3, 70], 'code': pd.Series(['x', 'yy', 'z', 'w'], dtype=object), 'flag': [True, False, True, True]}
+    cons = {'fields': {'amount': {'type': 'int', 'max': 10}, 'code': {'type': 'string', 'max_length': 3},
+                       'flag': {'type': 'bool'}, 'ghost': {'max_nulls': 0}}}
+    tmpdir = tempfile.mkdtemp(prefix='verif-c06m-')
+    try:
+        import itertools as _it
+        for order in _it.permutations(list(cols)):
+            for with_ghost in (False, True):
+                c2 = {'fields': {k: v for k, v in cons['fields'].items() if with_ghost or k != 'ghost'}}
+                df = pd.DataFrame({k: cols[k] for k in order})
+                w = {'columns': list(order), 'constraints': json.dumps(c2['fields']), 'failing rows': [1, 3]}
+                b.case(('multi-field', order, with_ghost))
+                outp = os.path.join(tmpdir, 'out.csv')
+                if os.path.exists(outp):
+                    os.unlink(outp)
+                with quiet():
+                    ok, r = b.guarded('C06.detect_df.noraise', lambda: detect_df(df.copy(), c2, outpath=outp, per_constraint=True,
+                                                                                 output_fields=[]), w)
+                if not ok:
+                    continue
+                v = verify_df(df.copy(), c2)
+                b.check('C06.verdicts-equal-verify', v.failures == r.failures and v.passes == r.passes, w,
+                        'verify %d/%d detect %d/%d' % (v.passes, v.failures, r.passes, r.failures))
+                det = r.detected() if r.detection is not None else None
+                b.check('C06.detected-frame-present', det is not None, w, 'failures=%d but no detection result' % r.failures)
+                if det is not None:
+                    b.check('C06.detected-holds-failing-records', list(det.index) == [1, 3], w, repr(list(det.index)))
+                    b.check('C06.record-counts-partition', r.detection.n_failing_records == 2
+                            and r.detection.n_passing_records == 2, w,
+                            '%r / %r' % (r.detection.n_passing_records, r.detection.n_failing_records))
+                b.check('C06.output-file-only-if-failures', os.path.exists(outp), w, 'no output file although constraints failed')
+    finally:
+        shutil.rmtree(tmpdir, ignore_errors=True)
 
 
 # ---------------------------------------------------------------------------
@@ -914,6 +958,13 @@ def check_detect_options(b, df, cons, base, w, tmpdir, opt):
                 want = len(df) if opt.get('write_all') else r.detection.n_failing_records
                 b.check('C06.output-file-holds-failing-records', len(out) == want, w2,
                         'file rows %d, expected %d' % (len(out), want))
+                if det is not None and 'Index' not in df:
+                    # the file holds the columns of the returned frame, plus the index column exactly when it was
+                    # asked for (index=True, or no output fields named)
+                    add_index = bool(opt.get('index')) or 'output_fields' not in opt
+                    want_cols = set(map(str, det.columns)) | ({'Index'} if add_index else set())
+                    b.check('C06.output-file-columns', set(map(str, out.columns)) == want_cols, w2,
+                            'file columns %r, expected %r' % (sorted(map(str, out.columns)), sorted(want_cols)))
                 if fail_pos is not None and 'Index' in out and 'Index' not in df:
                     pos = list(range(len(df))) if opt.get('write_all') else fail_pos
                     labels = [str(df.index[i]) for i in pos]
